@@ -7,6 +7,8 @@
 #include "mc/explore.hpp"
 #include "mc/peek.hpp"
 #include "ref/ref_wav.hpp"
+#include "ref/ref_lzh.hpp"
+#include "ref/ref_vol.hpp"
 #include "Archive/VolFile.h"
 #include "Archive/ClmFile.h"
 #include <memory>
@@ -413,6 +415,38 @@ void jointCase(std::size_t which, Ctx& ctx)
 		auto r = mc::bfs(j, ctx, 20000, depthFile, vol ? "joint-vol" : "joint-clm");
 		ctx.trace(r.transitions);
 		ctx.count("interleaving/archive-cases");
+		if (vol) {
+			// a reference-encoded volume whose first member is stored compressed: its index size (unpacked) differs from
+			// its block length (stored). A member stream is the stored block, positions 0..block length, nothing else
+			std::vector<ref::LzhToken> toks; for (int i = 0; i < 12; ++i) toks.push_back(ref::Lit(uint8_t('a' + i)));
+			toks.push_back(ref::Match(20, 5)); toks.push_back(ref::Match(9, 2));
+			auto packed = ref::lzhEncode(toks);
+			auto plain = ref::lzhExpand(toks);
+			std::vector<ref::VolMember> ms(3);
+			ms[0].name = "aa.lzh"; ms[0].stored = packed; ms[0].kind = 0x103; ms[0].overrideIndexSize = true; ms[0].indexSize = uint32_t(plain.size());
+			ms[1].name = "bb.bin"; ms[1].stored = pattern(5, 0x60);
+			ms[2].name = "cc.lzh"; ms[2].stored = packed; ms[2].kind = 0x103; ms[2].overrideIndexSize = true; ms[2].indexSize = uint32_t(plain.size());   // last member: an over-long slice would pass the end of the file
+			std::string rarch = dir + "/ref.vol";
+			mc::writeFile(rarch, ref::encodeVol(ms).bytes);
+			auto o = mc::guarded([&] {
+				Archive::VolFile v(rarch);
+				std::vector<std::unique_ptr<Stream::BidirectionalReader>> st;
+				for (std::size_t i = 0; i < ms.size(); ++i) st.push_back(v.OpenStream(i));
+				for (std::size_t i = 0; i < ms.size(); ++i) {
+					if (st[i]->Length() != ms[i].stored.size() || st[i]->Position() != 0) { ctx.violation("C13/archive/member-stream-is-not-the-stored-block", ms[i].name, "Length " + std::to_string(st[i]->Length()) + ", stored block has " + std::to_string(ms[i].stored.size()) + " bytes (index size " + std::to_string(ms[i].overrideIndexSize ? ms[i].indexSize : uint32_t(ms[i].stored.size())) + ")"); return; }
+				}
+				// interleaved byte-wise reads
+				std::size_t longest = 0; for (auto& m : ms) longest = std::max(longest, m.stored.size());
+				for (std::size_t k = 0; k < longest; ++k) for (std::size_t i = 0; i < ms.size(); ++i) if (k < ms[i].stored.size()) {
+					uint8_t b = 0; st[i]->Read(&b, 1);
+					ctx.transition();
+					if (b != ms[i].stored[k]) { ctx.violation("C13/archive/member-stream-bytes", ms[i].name, "byte " + std::to_string(k)); return; }
+				}
+				for (std::size_t i = 0; i < ms.size(); ++i) { uint8_t b; if (st[i]->ReadPartial(&b, 1) != 0) { ctx.violation("C13/archive/member-stream-reads-past-its-block", ms[i].name, ""); return; } }
+				ctx.count("interleaving/compressed-member-streams");
+			});
+			if (o.cls != 'R') ctx.violation("C13/archive/compressed-member-stream-throws", "ref.vol", o.what);
+		}
 	}
 	mc::removeTree(dir);
 }
